@@ -204,7 +204,7 @@ func c10RunCompose(s *c10Scn) (any, []Mon, string) {
 		for j := range t.Patches {
 			p := &t.Patches[j]
 			c10PrepPatch(p)
-			c10FillPatchOracles(p, xrC, shadowCD)
+			c10FillPatchOracles(p, xrC, shadowCD, nil)
 		}
 	}
 
